@@ -233,3 +233,39 @@ func VerifHarness_Block_MoveTargetGone() {
 	verifAssert("C16:matured-batch-deleted", len(st.FrozenFunds.VerifLive(H)) == 0)
 	_ = bal
 }
+
+// C28 (update window): BeginBlock recomputes the reward only on the first block
+// of a stake period whose block time is between 12:00 and 14:59 UTC and more
+// than 3 hours after the previous update, and only while the emission is below
+// the cap; at the cap the reward is zero.  Heights, hours and gaps are harness
+// choices (block times are concrete in the engine), the emission is symbolic.
+func VerifHarness_C28_RewardWindow() {
+	u := verifBlockUniverse()
+	bc := u.bc
+	st := bc.stateDeliver
+	e18 := new(big.Int).Exp(big.NewInt(10), big.NewInt(18), nil)
+	st.SwapV2.PairCreate(0, types.USDTID, new(big.Int).Mul(big.NewInt(3500000000), e18), new(big.Int).Mul(big.NewInt(10000000), e18))
+	height := []uint64{721, 722, 1441, 1440}[verifChoice("height", 4)]
+	hour := []int{11, 12, 14, 15}[verifChoice("hour", 4)]
+	gap := []int64{3*3600 - 1, 3 * 3600, 3*3600 + 1}[verifChoice("gap", 3)]
+	blockTime := int64(1704067200) + int64(hour)*3600
+	prev := time.Unix(blockTime-gap, 0).UTC()
+	bc.appDB.SetPrice(prev, new(big.Int).Mul(big.NewInt(3500000000), e18), new(big.Int).Mul(big.NewInt(10000000), e18), verifBigNN("prevReward"), false)
+	st.App.SetReward(big.NewInt(777), big.NewInt(888))
+	emission := bc.appDB.Emission()
+	capReached := emission.Cmp(bc.rewardsCounter.TotalEmissionBig()) >= 0
+	verifBegin(u, height, nil, hour)
+	tNow, _, _, _, _ := bc.appDB.GetPrice()
+	updated := tNow.Unix() == blockTime
+	inWindow := height%720 == 1 && hour >= 12 && hour <= 14 && gap > 3*3600
+	reward, safe := st.App.Reward()
+	if capReached {
+		verifAssert("C28:no-reward-once-the-cap-is-reached", reward.Sign() == 0 && safe.Sign() == 0)
+		verifAssert("C28:no-price-update-at-the-cap", !updated)
+		return
+	}
+	verifAssert("C28:reward-recomputed-exactly-in-the-update-window", updated == inWindow)
+	if !inWindow {
+		verifAssert("C28:reward-unchanged-outside-the-window", reward.Cmp(big.NewInt(777)) == 0 && safe.Cmp(big.NewInt(888)) == 0)
+	}
+}
